@@ -29,6 +29,8 @@ struct Job {
     input: String,
     entry: Entry,
     ctx: Ctx,
+    /// the input is handed to the parser at this offset (0..7) inside its buffer: different alignment of the same text
+    align: usize,
 }
 
 fn parse_job(v: &Value) -> Job {
@@ -40,6 +42,7 @@ fn parse_job(v: &Value) -> Job {
         input: v["input"].as_str().expect("job.input").to_string(),
         entry: Entry::from_name(v.get("entry").and_then(|e| e.as_str()).unwrap_or("noop")).expect("job.entry"),
         ctx: Ctx { retval: g(0), a_count: g(1), calls: 0 },
+        align: v.get("align").and_then(|a| a.as_u64()).unwrap_or(0) as usize % 8,
     }
 }
 
@@ -50,8 +53,30 @@ struct JobResult {
     panicked: bool,
 }
 
+thread_local! {
+    /// one buffer per OS thread, reused for consecutive inputs when the plan says so (same address, different text)
+    static ARENA: std::cell::RefCell<String> = const { std::cell::RefCell::new(String::new()) };
+}
+
 fn run_job_guarded(job: &Job, entry: Entry) -> JobResult {
-    let r = catch_unwind(AssertUnwindSafe(|| dispatch(&job.variant, &job.rule, &job.input, entry, job.ctx)));
+    run_job_in_buffer(job, entry, false)
+}
+
+fn run_job_in_buffer(job: &Job, entry: Entry, reuse: bool) -> JobResult {
+    let mut fresh = String::new();
+    let r = if reuse {
+        ARENA.with(|a| {
+            let mut a = a.borrow_mut();
+            a.clear();
+            a.push_str(&" ".repeat(job.align));
+            a.push_str(&job.input);
+            catch_unwind(AssertUnwindSafe(|| dispatch(&job.variant, &job.rule, &a[job.align..], entry, job.ctx)))
+        })
+    } else {
+        fresh.push_str(&" ".repeat(job.align));
+        fresh.push_str(&job.input);
+        catch_unwind(AssertUnwindSafe(|| dispatch(&job.variant, &job.rule, &fresh[job.align..], entry, job.ctx)))
+    };
     match r {
         Ok(Some((res, ctx))) => JobResult { res, ctx, nest: simrt::nesting_error(), panicked: false },
         Ok(None) => {
@@ -139,14 +164,14 @@ fn parse_policy(p: &Value) -> Policy {
     }
 }
 
-fn run_one(sim: &Arc<Sim>, task: usize, j: usize, job: &Job, fresh: bool) -> JobResult {
+fn run_one(sim: &Arc<Sim>, task: usize, j: usize, job: &Job, fresh: bool, reuse: bool) -> JobResult {
     let body = |bind: bool| -> JobResult {
         if bind {
             simrt::bind_thread(sim, task);
         }
         simrt::set_job(j as u16, job.input.len() as u32);
         simrt::emit(EV_JOB_START, &job.variant, NO_OFF);
-        let r = run_job_guarded(job, job.entry);
+        let r = run_job_in_buffer(job, job.entry, reuse);
         simrt::emit(EV_JOB_END, &job.variant, NO_OFF);
         r
     };
@@ -176,6 +201,7 @@ fn cmd_run() {
     let n = tasks.len();
     let fresh = plan.get("fresh_threads").and_then(|x| x.as_bool()).unwrap_or(false);
     let keep_log = plan.get("keep_log").and_then(|x| x.as_bool()).unwrap_or(false);
+    let reuse = plan.get("reuse_buffer").and_then(|x| x.as_bool()).unwrap_or(false);
     let mut start_at: Vec<u64> =
         plan.get("start_at").and_then(|a| a.as_array()).map(|a| a.iter().filter_map(|x| x.as_u64()).collect()).unwrap_or_default();
     start_at.resize(n, 0);
@@ -206,7 +232,7 @@ fn cmd_run() {
                     sim.task_enter(t);
                     let mut out = Vec::new();
                     for (j, job) in tasks[t].iter().enumerate() {
-                        out.push(run_one(&sim, t, j, job, fresh));
+                        out.push(run_one(&sim, t, j, job, fresh, reuse));
                     }
                     sim.task_exit(t);
                     simrt::unbind_thread();
